@@ -1,6 +1,6 @@
 // H-sim harness for C19: the real ObjectCache<int, Obj*> driven by scripted photon threads on one vCPU (virtual clock).
 //   cache <lifespan_us> <timer_cycle_us>
-//   thread <T> acquire <k> <ok|fail|slow<us>> ; release <k> <0|1 recycle> ; sleep <us> ; yield
+//   thread <T> acquire <k> <ok|fail|slow<us>|slowfail<us>> <failure cooldown us> ; release <k> <0|1 recycle> ; sleep <us> ; yield
 //   run
 #include <photon/thread/thread.h>
 #include <photon/common/expirecontainer.h>
@@ -29,12 +29,13 @@ static void exec_op(Script& me, const std::vector<std::string>& op) {
     if (k == "acquire") {
         int key = atoi(op[1].c_str()); std::string how = op[2];
         auto p = oc->acquire(key, [&]() -> Obj* {
-            emit("ctor_begin %d @%lu", key, (unsigned long)vnow);
-            if (how.compare(0, 4, "slow") == 0) photon::thread_usleep(strtoull(how.c_str() + 4, 0, 10));
-            Obj* o = (how == "fail") ? nullptr : new Obj(key, next_obj++);
+            emit("ctor_begin %d %s @%lu", key, me.name.c_str(), (unsigned long)vnow);
+            bool fail = how == "fail" || how.compare(0, 8, "slowfail") == 0;
+            if (how.compare(0, 4, "slow") == 0) photon::thread_usleep(strtoull(how.c_str() + (fail ? 8 : 4), 0, 10));
+            Obj* o = fail ? nullptr : new Obj(key, next_obj++);
             emit("ctor_end %d %ld @%lu", key, o ? o->id : -1L, (unsigned long)vnow);
             return o;
-        });
+        }, op.size() > 3 ? strtoull(op[3].c_str(), 0, 10) : 0);
         r = p ? p->id : -1;
         if (p) me.held[key]++;
     } else if (k == "release") { int key = atoi(op[1].c_str()); me.held[key]--; oc->release(key, op[2] == "1", true); }
